@@ -108,7 +108,9 @@ PROPS = {
                                         ("X1", 200, {"parallel": 16, "race": True, "configs": ["default"]}),
                                         # whole transcript histories from 16 goroutines, assembly and portable Keccak
                                         ("M2", 3000, {"parallel": 16, "configs": ["default", "purego"]}),
-                                        ("M2", 400, {"parallel": 16, "race": True, "configs": ["purego"]})],
+                                        ("M2", 400, {"parallel": 16, "race": True, "configs": ["purego"]}),
+                                        # the LRU histories (their concurrent stress phases included) under the race detector
+                                        ("C2", 600, {"race": True, "configs": ["default"]})],
                 configs_quick=Q4, configs_thorough=T4,
                 theorems={"Voi.Props.LRUInv": LRU_THMS, "Voi.Props.LinearizeSound": LIN_THMS}),
     "C17": dict(level="proof", streams=[("R1", 8000)], configs_quick=["default", "force32bit"], configs_thorough=T4, theorems={"Voi.Props.C17": C17_THMS}),
